@@ -53,6 +53,19 @@ CHECKS["C15"] = dict(
     ref="DESIGN.md 5.2, 8 (C15)", note=REG_NOTE,
     technique="exhaustive case enumeration + TLC trace validation of every case against Register.tla")
 
+CHECKS["C04"] = dict(
+    text="DMapKey.tla's MirrorAtQuiescence is model-checked; on real clusters every reply of random sequences of mutating operations (all kinds, all entry "
+         "paths, R in {2,3}) is followed by a white-box dump of the key's copy in every member's primary and backup fragment, and TLC (ReplicaTrace.tla) "
+         "checks that backup copies equal the primary in value, expiry and timestamp, that no other fragment holds the key, and that presence matches the reply.",
+    ref="DESIGN.md 5.3, 8 (C04)",
+    technique="TLC model checking of DMapKey.tla + TLC trace validation of white-box copy dumps (ReplicaTrace.tla)")
+CHECKS["C05"] = dict(
+    text="Quorum.tla states the abstract quorum rules and the code's counting algorithm; TLC enumerates every (R,W,RQ), unreachable set and copy placement. "
+         "On real clusters every configuration is probed (Get/Put through three paths, unreachable backups, shaped copy sets, member-count quorum while members "
+         "leave) and TLC (QuorumTrace.tla) judges each reply against the white-box number of copies using the same abstract rules.",
+    ref="DESIGN.md 8 (C05)",
+    technique="exhaustive TLC enumeration of Quorum.tla + TLC trace validation of quorum probes (QuorumTrace.tla)")
+
 NOT_YET = {}
 
 def main():
